@@ -106,7 +106,10 @@ fn feature(rng: &mut Rng, i: usize) -> String {
 }
 
 fn feature_core(rng: &mut Rng, i: usize) -> String {
-    match rng.below(4) {
+    let kinds = if rng.chance(1, 10) { 5 } else { 4 };
+    match rng.below(kinds) {
+        // a quoted cell that spans two lines: the feature is the raw remainder of the row, line break included
+        4 => format!("g{i},\"a\nb{i}\",z"),
         0 => format!("f{i}"),
         1 => format!("f{i},名詞,*"),
         2 => format!("\"q,{i}\",x"),
@@ -418,7 +421,7 @@ pub fn gen_dict(rng: &mut Rng, cfg: &GenCfg) -> DictSrc {
     // width boundaries of the postings lists: a large family of homographs (>= 256 rows of one surface)
     if (cfg.big_homographs || rng.chance(1, 25)) && !pool.is_empty() {
         let surf = pool[rng.below(pool.len())].clone();
-        let n = *rng.pick(&[255usize, 256, 257, 300, 513]);
+        let n = *rng.pick(&[255usize, 255, 510, 256, 257, 300, 513, 765]);
         let cell = if surf.contains(',') || surf.contains('"') {
             format!("\"{}\"", surf.replace('"', "\"\""))
         } else {
